@@ -227,12 +227,27 @@ def r4(ctx):
         if x.get("k") == "for" and mentions_field(x["iter"], "connect"):
             inv = x
     if inv is None:
-        raise Unestablished("no loop over self.connect in backward", c.loc(fn))
-    binds = pat_binds(inv["pat"])
-    ins = [y for y in walk(inv["body"]) if y.get("k") == "mcall" and hm(y["callee"], "insert")]
-    ok = len(binds) == 2 and len(ins) == 1 and [e4.local_hid(a) for a in ins[0]["args"]] == [binds[1][1], binds[0][1]]
-    ctx.check("R16.4", "map-inverted", ok, "map-not-inverted", c.loc(fn, inv), "{to: from} -> {from: to}",
-              "expected insert(value, key) over self.connect.iter(): " + short(pretty(inv), 160))
+        # `self.connect.iter().map(|(to, from)| (from, to)).collect()` into a map
+        okm = False
+        node_ = None
+        for x in walk(fn["body"], into_closures=False):
+            if x.get("k") == "mcall" and x["name"] == "collect" and mentions_field(x, "connect") and (c.ty(x) or "").startswith("std::collections::HashMap<"):
+                mp = strip(x["recv"])
+                if mp.get("k") == "mcall" and mp["name"] == "map" and len(mp["args"]) == 1 and strip(mp["recv"]).get("k") == "mcall" and strip(mp["recv"])["name"] == "iter":
+                    cl = strip(mp["args"][0])
+                    pb = pat_binds(cl["params"][0]) if cl.get("k") == "closure" and len(cl["params"]) == 1 else []
+                    bd = strip(cl["body"]) if cl.get("k") == "closure" else None
+                    if len(pb) == 2 and bd is not None and bd.get("k") == "tup" and [e4.local_hid(z) for z in bd["xs"]] == [pb[1][1], pb[0][1]]:
+                        okm, node_ = True, x
+        if node_ is None:
+            raise Unestablished("no inversion of self.connect in backward (neither an insert loop nor iter().map(swap).collect())", c.loc(fn))
+        ctx.check("R16.4", "map-inverted", okm, "map-not-inverted", c.loc(fn, node_), "{to: from} -> {from: to}")
+    else:
+        binds = pat_binds(inv["pat"])
+        ins = [y for y in walk(inv["body"]) if y.get("k") == "mcall" and hm(y["callee"], "insert")]
+        ok = len(binds) == 2 and len(ins) == 1 and [e4.local_hid(a) for a in ins[0]["args"]] == [binds[1][1], binds[0][1]]
+        ctx.check("R16.4", "map-inverted", ok, "map-not-inverted", c.loc(fn, inv), "{to: from} -> {from: to}",
+                  "expected insert(value, key) over self.connect.iter(): " + short(pretty(inv), 160))
     # use site: `if connect.contains_key(&idx) {..connect[&idx]..}` or `if let Some(to) = connect.get(&idx) {..}` on the inverted (local) map
     adds = []
     for x in walk(fn["body"]):
